@@ -231,12 +231,7 @@ func ruleC16(c *Ctx, r *Report) {
 					r.Check(argOK, "C16-R3", a.download.Name()+":host-list-source", c.InstrPos(hc), "host list derived from connectionStrings.standard of the cluster description", "host list is not derived from the standard connection string")
 				}
 			}
-			everyIter := true
-			for _, lt := range l.Loop.Latch {
-				if !pc.Block().Dominates(lt) {
-					everyIter = false
-				}
-			}
+			everyIter := l.Loop.everyIteration(pc.Block())
 			// host argument = element at loop index
 			hostArgOK := false
 			for _, arg := range pc.Call.Args {
@@ -252,12 +247,19 @@ func ruleC16(c *Ctx, r *Report) {
 			allInstrs(a.download, func(i ssa.Instruction) {
 				if ac, ok := i.(*ssa.Call); ok && calleeKey(&ac.Call) == "builtin append" && isAccumulator(ac.Call.Args[0], l.Loop.Header, l.Loop.Region()) {
 					for _, v := range varargValues(ac.Call.Args[1]) {
-						if res0 != nil && v == ssa.Value(res0) {
+						if res0 != nil && v == ssa.Value(res0) && l.Loop.everyIteration(ac.Block()) {
+							// in every completed iteration: the list stays aligned with the host list
 							appended = true
 						}
 					}
 				}
 			})
+			// a host whose download failed ends the whole download with an error (skipping it
+			// would shift every later file onto the wrong <output>.<i>)
+			okErr, errDetail := checkCallErrHandled(pc, true, nil)
+			r.Check(okErr, "C16-R3", a.download.Name()+":per-host-failure-is-fatal", c.InstrPos(pc),
+				"a failed host download makes the download fail: "+errDetail,
+				"a failed host download does not end the download with an error ("+errDetail+"): the file list no longer lines up with the host list, so <output>.<i> holds another host's log and the run reports success")
 			okLoop = src == "hosts" && nEnclosing == 1 && everyIter && hostArgOK && appended
 			detail = fmt.Sprintf("rangesOverHostList=%v enclosingLoops=%d callEveryIteration=%v hostArgIsElement=%v resultAppendedInOrder=%v", src == "hosts", nEnclosing, everyIter, hostArgOK, appended)
 		}
@@ -619,12 +621,7 @@ func c16Pairing(c *Ctx, r *Report, an *Anchors, a *atlasAnchors) {
 			continue
 		}
 		pc := procs[0]
-		everyIter := true
-		for _, lt := range loop.Loop.Latch {
-			if !pc.Block().Dominates(lt) {
-				everyIter = false
-			}
-		}
+		everyIter := loop.Loop.everyIteration(pc.Block())
 		// input path = files[i]
 		inOK := false
 		for _, arg := range pc.Call.Args {
